@@ -414,3 +414,13 @@ def run(F, rep):
         rep.fail('C06.F2', '%s|%s' % (g_.short.split('::')[-1], render(c_)[:60]), g_.where(c_), '%s re-points an import with `%s` instead of instantiating what it names' % (g_.short, render(c_)[:70]))
     rep.ok('C06.F2', 'scan', None, '%d calls of setImportSource/setImportReference on entities in %s; none in importer.cpp' % (n_f2, sorted(callers)))
 
+    # ------------------------------------------------------------------ N1: one component per name in the clash map
+    rep.rule('C06.N1', 'the name -> component map with which flattenComponent de-clashes component names (createComponentNamesMap) holds ONE entry per name: a container with unique keys (std::map / unordered_map). '
+                       'With a multimap two components of the same name are both renamed to the same new name, and the flat model has a duplicate although both inputs were valid')
+    ccm = F.fn1('libcellml::createComponentNamesMap')
+    kinds_ = sorted({(p_.get('t') or '') for p_ in ccm.params if 'map<' in (p_.get('t') or '')} | {(v_.get('t') or '') for v_ in ccm.walk() if v_.get('k') == 'Var' and 'map<' in (v_.get('t') or '')} | ({ccm.j.get('ret')} if 'map<' in (ccm.j.get('ret') or '') else set()))
+    if not kinds_:
+        raise AnalysisBroken('createComponentNamesMap: the name map vanished')
+    for t_ in kinds_:
+        rep.check('multimap<' not in t_ and 'multiset<' not in t_, 'C06.N1', 'createComponentNamesMap|%s' % t_[:40], ccm.where(), 'component names are collected in `%s`, which keeps several components under one name' % t_[:60], 'unique keys')
+
